@@ -402,15 +402,21 @@ def verify_reads_at_call_time(run):
 
 
 def build(run):
-    run.assume("A-CTX", "A-PY")
+    run.assume("A-CTX", "A-PY", "A-SET", "A-NP")
     rp = {"module": N, "func": "replay_context", "kwargs": {}, "vars": {}}
-    for fq, f in (("library.Settings.context", verify_context), ("library.settings/reads_at_call_time", verify_reads_at_call_time)):
+    from props import C14
+    for fq, f in (("library.Settings.context", verify_context), ("library.settings/reads_at_call_time", verify_reads_at_call_time),
+                  # the comparison helper applies settings.atol as the ABSOLUTE and settings.rtol as the RELATIVE tolerance (contract shared with C14/C15)
+                  ("operation.Op.is_close", C14.verify_is_close)):
         try:
             f(run)
         except Unsupported as ex_:
             run.add(undecided(f"{fq}/subset", f"outside the verified subset: {ex_}", fn=fq, meta={"replay": rp}))
         except NotFound as ex_:
             run.add(static(f"{fq}/exists", False, f"function under contract not found: {ex_}", fn=fq))
+    run.bounded("library.settings/helpers_observe_temporary_values.runtime", N, "replay_helpers", [dict()],
+                bound="Op.str, Op.is_close (absolute and relative tolerance in their roles), FldExporter created before the context, Representation.import_statement under several "
+                      "aliases: the temporary values are observed inside the context and only there")
     run.bounded("library.Settings.context/nesting.runtime", N, "replay_context", [dict(seed=run.seed, budget=400 if run.tier == "quick" else 6000)],
                 bound="random nestings up to depth 4 over random subsets of the 7 settings, an exception (Exception, KeyboardInterrupt, custom BaseException) at any level or none, direct assignments inside, contexts naming a setting with its current value")
 
